@@ -166,6 +166,10 @@ func (g *c19gen) schema(depth int) *jsonschema.Schema {
 			s.PatternProperties = map[string]*jsonschema.Schema{"^a": g.schema(depth - 1), "b$": g.schema(depth - 1)}
 		case 5:
 			s.Extra = map[string]any{"x-b": 1.0, "x-a": map[string]any{"k2": true, "k1": nil}, "zz": "s"}
+			if c.W(6) == 0 {
+				// an unknown-keyword map that repeats a known keyword (set in the struct or not)
+				s.Extra[pick(c, []string{"title", "properties", "$id", "required", "items"})] = "from Extra"
+			}
 		case 6:
 			s.DependentSchemas = map[string]*jsonschema.Schema{"u": g.schema(depth - 1), "t": g.schema(depth - 1)}
 		case 7:
@@ -343,6 +347,9 @@ func kids(s *jsonschema.Schema) []*jsonschema.Schema {
 
 // treeFacts reports whether any PropertyOrder in the tree has a duplicate and
 // whether some level is "rich" (>=3 properties, >=1 listed, >=2 unlisted).
+// extraKeywordNames: JSON names of Schema fields that the generator also uses as Extra keys.
+var extraKeywordNames = map[string]bool{"title": true, "properties": true, "$id": true, "required": true, "items": true}
+
 func treeFacts(s *jsonschema.Schema) (dup, rich bool) {
 	seen := map[string]bool{}
 	listed := 0
@@ -357,6 +364,11 @@ func treeFacts(s *jsonschema.Schema) (dup, rich bool) {
 	}
 	if len(s.Properties) >= 3 && listed >= 1 && len(s.Properties)-listed >= 2 {
 		rich = true
+	}
+	for k := range s.Extra {
+		if extraKeywordNames[k] {
+			dup = true // an Extra key that repeats a keyword of the struct: Marshal must refuse, whether or not the field is set
+		}
 	}
 	for _, k := range kids(s) {
 		d, r := treeFacts(k)
@@ -464,7 +476,7 @@ func driveC19(c *Ctx) {
 				c.Out("marshal = %.300s", d)
 				if g.hasDup {
 					if err == nil && !r.Panicked {
-						c.Fail("C19/duplicate-rejected", "Marshal", "a PropertyOrder list in the tree has a duplicate entry but Marshal succeeded: %.300s (shape %s)", d, shape)
+						c.Fail("C19/duplicate-rejected", "Marshal", "a PropertyOrder list in the tree has a duplicate entry (or an Extra key repeats a keyword) but Marshal succeeded: %.300s (shape %s)", d, shape)
 					}
 				} else if err != nil {
 					c.Fail("C19/marshal-error", errSig(err), "Marshal of a well-formed schema value failed: %v (shape %s)", err, shape)
